@@ -473,3 +473,152 @@ Proof.
     + rewrite Bool.negb_involutive. exact (pgq_keep_null_chain _ _ _ _ KD1 KD2 KD3).
     + intros a l0 _. split; [intros []|]. rewrite Bool.negb_involutive. apply pgq_notnull_T.
 Qed.
+
+Lemma pgq_memo_put : forall w d p1, pgt_dR (pg_get w d) p1 ->
+  (forall d0, pgq_memo (pg_get w (negb d0)) (pg_get w d0)) ->
+  forall d0, pgq_memo (pg_get (pg_put w d p1) (negb d0)) (pg_get (pg_put w d p1) d0).
+Proof.
+  intros w d p1 (K & O & _) HM d0. destruct (Bool.bool_dec d0 d) as [->|Hne].
+  - rewrite pg_get_put_same, pg_get_put_other. eapply pgq_memo_keep; [apply (HM d)|apply (pgt_keep_refl (fun _ => False))|exact K|exact O|].
+    intros a l _. split; [intros []|intros _ []].
+  - assert (d0 = negb d) by (destruct d0, d; cbn; congruence). subst d0. rewrite Bool.negb_involutive, pg_get_put_same, pg_get_put_other.
+    eapply pgq_memo_keep; [apply (HM (negb d))|rewrite Bool.negb_involutive; exact K|apply (pgt_keep_refl (fun _ => False))|reflexivity|].
+    intros a l _. split; [intros []|intros _ []].
+Qed.
+
+Lemma pgq_no_copy : forall w o d, pgq_foreign w o = None -> pgq_cf w o = None -> pgt_copies_into w o d = false.
+Proof.
+  intros w o d Hf Hc. unfold pgt_copies_into, pgq_foreign, pgq_cf, pg_foreign_handle in *.
+  destruct o; try reflexivity; destruct (pg_norm w h) as [v|b i]; try (apply andb_false_r);
+    destruct (Bool.eqb b d0); try discriminate; cbn; apply andb_false_r.
+Qed.
+
+(* ------------------------------------------------------------------ one call *)
+Lemma pgq_step_refines : forall w o, pgq_W w -> pgq_adm w o ->
+  let '(w', r) := pg_step w o in
+  let '(s', raise_) := pg_spec_step (pgx_marks2 w) (pgx_abs w o) in
+  pgx_marks2 w' = s' /\ pg_is_err r = raise_ /\ pgq_W w'.
+Proof.
+  intros w o HWW Hadm.
+  assert (Hsorted : pgs_world (fst (pg_step w o))).
+  { destruct HWW as (_ & HS & _). destruct Hadm as (Hso & _). apply sorted_store_invariant_lemma; assumption. }
+  pose proof HWW as (HW & HS & HM). pose proof Hadm as (Hso & Hun & Hcase).
+  destruct (pgq_foreign w o) as [[d i]|] eqn:Hf.
+  - (* a page of the other document *)
+    pose proof (pgq_step_refines_foreign w o d i HWW Hadm Hf) as Href.
+    destruct Hcase as (Hsall & (di & Hdi & Hpl & Hop3) & Hsucc).
+    assert (Hmemo : forall d0, pgq_memo (pg_get (fst (pg_step w o)) (negb d0)) (pg_get (fst (pg_step w o)) d0)).
+    { assert (Hsrt : pgs_doc (pg_get w (negb d))) by (destruct HS; destruct d; assumption).
+      destruct (pgx_W_get w (negb d) HW) as [Ks Hsts]. rewrite <- (pgx_K_flat _ _ (pgx_st_flat _ _ Hsts)) in Hsts.
+      assert (Hex : pg_lookup (pd_store (pg_get w (negb d))) i <> None) by (rewrite Hdi; discriminate).
+      destruct (pgx_W_get w d HW) as [Kd Hstd].
+      unfold pgq_foreign in Hf.
+      destruct o as [d0 h first|d0 h first|d0 h before r|d0 h|d0 i0|d0 h|d0 i0 v|d0 i0 j|d0|d0|d0|d0 i0|d0 v|d0 i0 h|d0 i0]; try discriminate;
+        destruct (pg_norm w h) as [v|b i1] eqn:En; try discriminate; destruct (Bool.eqb b d0) eqn:Eb; try discriminate;
+        inversion Hf; subst d0 i1; apply Bool.eqb_false_iff in Eb;
+        assert (b = negb d) by (destruct b, d; cbn; congruence); subst b;
+        pose proof (pgq_norm_obj_eq _ _ _ _ En) as Eh; subst h; cbn [pg_step] in *.
+      - destruct first.
+        + destruct (pg_insert w d (PhObj (negb d) i) 0) as [w' e] eqn:Ei. cbn [fst snd] in *.
+          assert (He : e = None) by (destruct e; [discriminate|reflexivity]). subst e.
+          pose proof (pgq_memo_foreign w d i 0 Hsall Hsrt Hsts Hex HM) as H. rewrite Ei in H. exact (H eq_refl).
+        + rewrite (pgx_count_st _ Kd (pgx_st_flat _ _ Hstd)) in *.
+          destruct (pg_insert w d (PhObj (negb d) i) (pg_len Kd)) as [w' e] eqn:Ei. cbn [fst snd] in *.
+          assert (He : e = None) by (destruct e; [discriminate|reflexivity]). subst e.
+          pose proof (pgq_memo_foreign w d i (pg_len Kd) Hsall Hsrt Hsts Hex HM) as H. rewrite Ei in H. exact (H eq_refl).
+      - destruct first.
+        + destruct (pg_insert w d (PhObj (negb d) i) 0) as [w' e] eqn:Ei. cbn [fst snd] in *.
+          assert (He : e = None) by (destruct e; [discriminate|reflexivity]). subst e.
+          pose proof (pgq_memo_foreign w d i 0 Hsall Hsrt Hsts Hex HM) as H. rewrite Ei in H. exact (H eq_refl).
+        + pose proof (pgt_all (pg_get w d)) as Hdr. destruct (pg_all (pg_get w d)) as [p1 e1]. cbn [fst] in Hdr.
+          destruct e1; [cbn in Hsucc; discriminate|]. cbv iota beta in *.
+          pose proof (pgq_memo_put w d p1 Hdr HM) as HM1.
+          destruct (pg_insert (pg_put w d p1) d (PhObj (negb d) i) (pg_len (pd_all p1))) as [w' e] eqn:Ei. cbn [fst snd] in *.
+          assert (He : e = None) by (destruct e; [discriminate|reflexivity]). subst e.
+          pose proof (pgq_memo_foreign (pg_put w d p1) d i (pg_len (pd_all p1))) as H. rewrite pg_get_put_other in H.
+          specialize (H Hsall Hsrt Hsts Hex HM1). rewrite Ei in H. exact (H eq_refl).
+      - destruct (pg_foreign_handle w d r); [cbn in Hsucc; discriminate|].
+        pose proof (pgt_find (pg_get w d) (pg_og_of w r)) as Hdr. destruct (pg_find (pg_get w d) (pg_og_of w r)) as [[p1 e1] pos]. cbn [fst] in Hdr.
+        destruct e1; [cbn in Hsucc; discriminate|]. cbv iota beta in *.
+        pose proof (pgq_memo_put w d p1 Hdr HM) as HM1.
+        destruct (pg_insert (pg_put w d p1) d (PhObj (negb d) i) (if before then pos else (pos + 1)%Z)) as [w' e] eqn:Ei. cbn [fst snd] in *.
+        assert (He : e = None) by (destruct e; [discriminate|reflexivity]). subst e.
+        pose proof (pgq_memo_foreign (pg_put w d p1) d i (if before then pos else (pos + 1)%Z)) as H. rewrite pg_get_put_other in H.
+        specialize (H Hsall Hsrt Hsts Hex HM1). rewrite Ei in H. exact (H eq_refl). }
+    destruct (pg_step w o) as [w' r]. destruct (pg_spec_step _ _) as [s' raise_]. cbn [fst] in *.
+    destruct Href as (A & B & C). split; [exact A|split; [exact B|split; [exact C|split; assumption]]].
+  - destruct Hcase as [Ha2 Hcf].
+    pose proof (pgx_step_refines2 w o HW Ha2) as Href.
+    assert (Hmemo : forall d0, pgq_memo (pg_get (fst (pg_step w o)) (negb d0)) (pg_get (fst (pg_step w o)) d0)).
+    { destruct (pgq_cf w o) as [[[d b] i]|] eqn:Hc.
+      - (* copyForeignObject of an object of the other document *)
+        unfold pgq_cf in Hc. destruct o; try discriminate. destruct (pg_norm w h) as [v|b0 i0] eqn:En; try discriminate.
+        destruct (Bool.eqb b0 d0) eqn:Eb; try discriminate. inversion Hc; subst d0 b0 i0.
+        cbn [pgx_adm2] in Ha2. rewrite En in Ha2. apply Bool.eqb_false_iff in Eb.
+        destruct Ha2 as [Ha2|Ha2]; [contradiction|].
+        assert (Hb : b = negb d) by (destruct b, d; cbn; congruence).
+        cbn [pg_step]. rewrite En. assert (Bool.eqb b d = false) as -> by (apply Bool.eqb_false_iff; exact Eb).
+        destruct (pg_copied (pg_get w b) (pg_get w d) i) as [[[src' dst'] e] r] eqn:Ecp. cbn [fst snd] in Ha2. subst e.
+        assert (Hsrt : pgs_doc (pg_get w b)) by (destruct HS; destruct b; assumption).
+        exact (pgq_memo_cf w b d i src' dst' r Hb Hcf Hsrt HM Ecp).
+      - apply (pgq_memo_generic w (fst (pg_step w o)) o); [|exact Hun|exact HM].
+        intros d. pose proof (frame_invariant_lemma w o d) as HT. cbv zeta in HT. destruct HT as [HK HO].
+        pose proof (pgq_no_copy w o d Hf Hc) as Hnc. split; [|exact (HO Hnc)].
+        eapply pgt_keep_weaken; [|exact HK]. intros j [HE|[Hcp _]]; [|congruence].
+        unfold pgq_E. destruct o; try contradiction; exact HE. }
+    destruct (pg_step w o) as [w' r]. destruct (pg_spec_step _ _) as [s' raise_]. cbn [fst] in *.
+    destruct Href as (A & B & C). split; [exact A|split; [exact B|split; [exact C|split; assumption]]].
+Qed.
+
+(* ------------------------------------------------------------------ histories with pages of the other document *)
+Fixpoint pgq_hist (w : pg_world) (ops : list pg_op) : Prop :=
+  match ops with [] => True | o :: t => pgq_adm w o /\ pgq_hist (fst (pg_step w o)) t end.
+
+(* FULL STATEMENT (DESIGN C13 pages_refine_list) with "insertions of pages from other documents, re-insertion of an already
+   present page, insertion of page copies": histories of any length over the whole alphabet of pages_refine_list PLUS
+   addPage / helper addPage / addPageAt with a page (any leaf dictionary) of the OTHER document - first insertion, insertion
+   of a page that was only reserved while another object was copied, repeated insertion of the same page, insertion after
+   copyForeignObject of it - from two flat clean documents.  The invariant pgq_W adds to pgx_W: every dictionary of both
+   stores is sorted (C13ProofsS.v) and the memo invariant between the documents (C13ProofsP.v).
+   Hypotheses per call (pgq_adm): those of pgx_adm2; operand values sorted; replaceObject / swapObjects not on objects that
+   take part in a copy relation ("if you mutate an object that has already been copied and try to copy it again, it won't
+   work", QPDF.hh - the harness's taint rule); for a foreign page: the source's page cache is filled, the operand is a plain
+   dictionary, a memoised local copy is still a leaf dictionary, and THE CALL DOES NOT FAIL (the copier model has a fuel and
+   refuses self-referencing objects; that it returns normally is assumed, what it then does to both lists is proved). *)
+Lemma pages_refine_list_foreign_lemma : forall ops w, pgq_W w -> pgq_hist w ops ->
+  pg_spec_run (pgx_marks2 w) (pgx_abs_hist w ops) = pgx_trace w ops /\ pgq_W (pg_run w ops).
+Proof.
+  induction ops as [|o t IH]; intros w Hg Hh; [split; [reflexivity|exact Hg]|].
+  destruct Hh as [Ha Hh]. pose proof (pgq_step_refines w o Hg Ha) as H.
+  cbn [pgx_abs_hist pg_spec_run pgx_trace pg_run].
+  destruct (pg_step w o) as [w' r] eqn:Es. destruct (pg_spec_step (pgx_marks2 w) (pgx_abs w o)) as [s' raise_] eqn:Ep.
+  destruct H as (Hm & Hr & Hg'). cbn [fst snd] in *. subst s' raise_.
+  destruct (IH w' Hg' Hh) as [IH1 IH2]. split; [|exact IH2]. f_equal. exact IH1.
+Qed.
+
+(* two flat clean documents as read, with sorted dictionaries, are a valid start (the object maps are empty) *)
+Lemma pages_initial_foreign_lemma : forall sa ra Ka sb rb Kb,
+  pgx_flat (pg_init_doc sa ra) Ka -> pgx_flat (pg_init_doc sb rb) Kb -> pgs_store sa -> pgs_store sb ->
+  pgq_W (pg_init_doc sa ra, pg_init_doc sb rb).
+Proof.
+  intros sa ra Ka sb rb Kb Ha Hb Sa Sb. split; [eapply pages_initial_lemma; eassumption|]. split; [split; assumption|].
+  intros []; apply pgq_memo_init.
+Qed.
+
+(* the two invariants under the names of the report *)
+Lemma frame_invariant_pages_lemma : forall w o d, let w' := fst (pg_step w o) in
+  pgt_keep (pgt_T w o d) (pd_store (pg_get w d)) (pd_store (pg_get w' d)) /\
+  (pgt_copies_into w o d = false -> pd_omap (pg_get w' d) = pd_omap (pg_get w d)).
+Proof. exact frame_invariant_lemma. Qed.
+
+Lemma copied_memo_lemma : forall src dst fid, pd_all src <> [] -> pgs_doc src -> pgq_memo src dst ->
+  let '(src', dst', e, r) := pg_copied src dst fid in e = None -> src' = src /\ pgq_memo src dst'.
+Proof. exact pgr_copied_memo. Qed.
+
+Lemma copied_placeholder_lemma : forall src dst fid l, pd_all src <> [] -> pg_omap_wf dst ->
+  pg_omap_find (pd_omap dst) fid = Some l -> pg_is_null (pd_store dst) (PvRef l) = true ->
+  pg_is_dict_of_type (pd_store src) (PvRef fid) pgk_Page = true ->
+  let '(src', dst', e, r) := pg_copied src dst fid in e = None ->
+  r = PvRef l /\ exists v, pg_lookup (pd_store src) fid = Some (PcObj v) /\
+                           pg_lookup (pd_store dst') l = Some (PcObj (pg_rename (pd_store src) (pd_omap dst') v)).
+Proof. exact pgr_copied_placeholder. Qed.
